@@ -118,6 +118,7 @@ func runC08(c *Ctx) {
 	c.Rule("C08.nonblocking-locks", "no blocking construct is executed while a mutex is held in packages match, coalesce, cache, ctree, metadata, latency (cache client fields bound to Server.Update; visitors passed to Query/Walk inside the module must be non-blocking)")
 	c.Rule("C08.bounded-backlog", "coalesce.insert never appends to the queue for a key that is already pending (<= 1 entry per distinct pending key)")
 	contentWriters(c, "C08.handles-keep-value")
+	respFaithful(c, "C08.resp-faithful")
 	c.Borrow("C06", map[string]string{"C06.once": "C08.once"}, "'at most one entry per distinct pending leaf' and 'a duplicate count equal to the number of updates coalesced': a change offered to one subscriber once per matching subscription path is inserted, and counted, several times")
 	c.Borrow("C11", map[string]string{"C11.token": "C08.wakeup"}, "a producer that skips the wake-up token leaves a healthy subscriber's sender parked with updates pending: it stops receiving although nothing is blocked")
 	c.Borrow("C03", map[string]string{"C03.write-then-return": "C08.leaf-handle"}, "the backlog is bounded because the queue coalesces on the identity of the leaf handle: the handle announced for a change must be the tree's own node, not a fresh detached leaf per update")
